@@ -125,6 +125,7 @@ pub fn exec_sched(sc: &Scenario) -> Report {
                 });
             }));
         }
+        let finish_spans: Arc<StdMutex<Vec<(usize, usize, usize)>>> = Arc::new(StdMutex::new(vec![]));
         let paths: Vec<Vec<(u64, u64, bool)>> = (0..nworkers).map(|i| path_of(&sc.threads[i + 1], has_len(i))).collect();
         let mut handles = vec![];
         // workers whose bit is set in drop_mask own the only handle of their bar and drop it at
@@ -138,6 +139,7 @@ pub fn exec_sched(sc: &Scenario) -> Report {
             let st = started.clone();
             let dr = dropped.clone();
             let (w_clone, ws) = (w_bar.clone(), w_started.clone());
+            let (fr2, spans) = (frames.clone(), finish_spans.clone());
             handles.push(verif_simrt::thread::spawn_named(&format!("user-{}", i + 1), move || {
                 let mut k = 0u64;
                 for op in ops.iter() {
@@ -148,8 +150,18 @@ pub fn exec_sched(sc: &Scenario) -> Report {
                             k += 1;
                             pb.set_message(format!("m{k}"));
                         }
-                        "finish" => pb.finish(),
-                        "abandon" => pb.abandon(),
+                        "finish" | "abandon" => {
+                            // finishing is a forced request: a frame showing the final state is
+                            // painted before the call returns, whatever the limiter says
+                            let before = fr2.lock().unwrap().len();
+                            if op.k == "finish" {
+                                pb.finish();
+                            } else {
+                                pb.abandon();
+                            }
+                            let after = fr2.lock().unwrap().len();
+                            spans.lock().unwrap().push((i, before, after));
+                        }
                         "w_inc" => {
                             if let Some(w) = &w_clone {
                                 ws.fetch_add(1, Ordering::SeqCst);
@@ -218,8 +230,7 @@ pub fn exec_sched(sc: &Scenario) -> Report {
                     suspended.store(1, Ordering::SeqCst);
                     mp.suspend(move || {
                         sched::yield_now();
-                        let _ = indicatif::TermLike::write_line(&t2, &l2);
-                        let _ = indicatif::TermLike::flush(&t2);
+                        t2.external_line(&l2);
                         sched::yield_now();
                     });
                     suspended.store(0, Ordering::SeqCst);
@@ -416,6 +427,25 @@ pub fn exec_sched(sc: &Scenario) -> Report {
                     break 'frames;
                 }
                 appeared[i] |= seen[i];
+            }
+        }
+        // every finish*/abandon* painted a frame with the final state before it returned
+        if r.violation.is_none() {
+            for (i, before, after) in finish_spans.lock().unwrap().iter() {
+                let want = render_row(&format!("B{i}"), *paths[*i].last().unwrap(), has_len(*i));
+                let painted = frames[(*before).min(frames.len())..(*after).min(frames.len())]
+                    .iter()
+                    .any(|f| f.rows.iter().any(|row| *row == want));
+                if !painted {
+                    r.violate(
+                        "C02.final_frame",
+                        format!(
+                            "finishing B{i} returned without a frame showing its final state {want:?} having been painted during the call (frames #{before}..#{after})"
+                        ),
+                    );
+                    break;
+                }
+                r.probe("finish_frames_checked");
             }
         }
         // the last frame shows the final states
